@@ -30,6 +30,10 @@ type Env struct {
 	qdepth    int            // quantifier nesting depth
 	qvars     []string       // bound variable terms of the innermost quantifier
 	trig      *[]string      // trigger candidates for the innermost quantifier
+	// stable predicates applied to references that are not known to be allocated at entry
+	forcePlain       bool
+	noStableFallback bool
+	assumeEntry      bool
 }
 
 func (env *Env) child() *Env {
@@ -728,7 +732,7 @@ func (env *Env) elabOpaque(d *Define, n ECall) (string, SType, error) {
 	}
 	var as, sorts, binders, pnames []string
 	c := &Env{e: e, vars: map[string]EV{}, curVer: env.curVer, oldVer: env.oldVer, visited: env.visited, preVer: env.preVer}
-	stable := d.Stable && e.fv != nil && e.fv.modifiesNothing()
+	stable := d.Stable && e.fv != nil && e.fv.modifiesNothing() && !env.forcePlain
 	if stable {
 		// stable predicate in a `modifies nothing` function: evaluated in the entry state
 		c.curVer = map[string]int{}
@@ -775,7 +779,28 @@ func (env *Env) elabOpaque(d *Define, n ECall) (string, SType, error) {
 			if sorts[i] != "Ref" {
 				continue
 			}
-			if !strings.Contains(body, " "+pnames[i]+")") || !derefRe(pnames[i]).MatchString(body) {
+			// the parameter itself and every let-bound alias of it introduced by macro expansion
+			names := []string{pnames[i]}
+			for k := 0; k < len(names); k++ {
+				for _, m := range regexp.MustCompile(`\((\|m\.[^|]*\|) `+regexp.QuoteMeta(names[k])+`\)`).FindAllStringSubmatch(body, -1) {
+					dup := false
+					for _, x := range names {
+						if x == m[1] {
+							dup = true
+						}
+					}
+					if !dup {
+						names = append(names, m[1])
+					}
+				}
+			}
+			derefs := false
+			for _, nm := range names {
+				if derefRe(nm).MatchString(body) {
+					derefs = true
+				}
+			}
+			if !derefs {
 				continue
 			}
 			t := as[i]
@@ -793,7 +818,36 @@ func (env *Env) elabOpaque(d *Define, n ECall) (string, SType, error) {
 				}
 			}
 			if !isParam {
-				return "", tBool, fmt.Errorf("stable predicate %s dereferences parameter %s, bound to %s, which is not a parameter of the enclosing function", d.Name, p.Name, t)
+				// not known to be allocated at entry: the entry-state reading would be about an object that
+				// need not exist there; fall back to the plain (current-state) meaning of the predicate
+				if env.noStableFallback {
+					return "", tBool, fmt.Errorf("stable predicate %s dereferences parameter %s, bound to %s, which is not a parameter of the enclosing function", d.Name, p.Name, t)
+				}
+				if env.assumeEntry {
+					continue
+				}
+				// sound by the stable-predicate meta-theorem: if the argument was allocated at entry the
+				// entry-state reading applies, otherwise the predicate has its plain (current-state) meaning
+				env2 := *env
+				env2.noStableFallback = true
+				env2.forcePlain = true
+				plain, pst, err := env2.elabOpaque(d, n)
+				if err != nil {
+					return "", tBool, err
+				}
+				env3 := *env
+				env3.assumeEntry = true
+				st, _, err := env3.elabOpaque(d, n)
+				if err != nil {
+					return "", tBool, err
+				}
+				var conds []string
+				for i2 := range d.Params {
+					if sorts[i2] == "Ref" {
+						conds = append(conds, fmt.Sprintf("(or (= %s nil) (isalloc %s %s))", as[i2], e.heapAt(heapAlloc, 0), as[i2]))
+					}
+				}
+				return fmt.Sprintf("(ite (and %s) %s %s)", strings.Join(conds, " "), st, plain), pst, nil
 			}
 		}
 		for h := range log {
